@@ -88,6 +88,14 @@ def GuardW (cfg : Cfg) (cr : Bool) : SysQ → SkelT → List EvT → Prop
   | _, _, [] => True
   | x, k, ev :: evs => guardEvW cfg cr x k ev ∧ GuardW cfg cr (stepT cfg cr x ev) (skStepT cfg k ev) evs
 
+/-- the state hypotheses of a history, read off the prefixes of the run -/
+theorem guardW_of_prefix (cfg : Cfg) (cr : Bool) : ∀ (evs : List EvT) (x : SysQ) (k : SkelT),
+    (∀ i ev, evs[i]? = some ev →
+      guardEvW cfg cr (runT cfg cr x (evs.take i)) (skRunT cfg k (evs.take i)) ev) → GuardW cfg cr x k evs
+  | [], _, _, _ => trivial
+  | e :: es, x, k, h =>
+    ⟨h 0 e rfl, guardW_of_prefix cfg cr es (stepT cfg cr x e) (skStepT cfg k e) (fun i ev hi => h (i + 1) ev hi)⟩
+
 -- ------------------------------------------------------------------ every event keeps the invariant
 
 theorem JTW_step_out {cfg : Cfg} {G : Block} (E : StaticOK cfg.st G) (hG : G.txs = []) (hb : cfg.batch > 0)
